@@ -229,8 +229,10 @@ class BuildDirs:
                 that the caller set out to create, because they did not
                 exist in the virtual state of the file system.
             made_dirs (list<str>): The elements of ``dirs_to_make`` that
-                the caller created in the real file system before the
-                exception.
+                the caller virtually created before the exception. They
+                exist in the real file system: either the caller
+                created them there, or they were present already (e.g.
+                left over from the previous build).
         """
         made_dirs_set = set(made_dirs)
         with self._lock:
